@@ -9,17 +9,102 @@
    (10 5 lens k)                    Tensor::map_mut       (shape lens, data iota)
    (10 6 lens k)                    Tensor::map_mut_with_index
    result: (panicked? rows cols (elements…)) resp. (panicked? (elements…)).
+   (10 7 shape data ops)            a HISTORY of safe Tensor mutators over Tensor::from(shape, data),
+                                    every step with valid or invalid arguments, the tensor used again
+                                    after every step (Model/TensorOps.v):
+        op = (0 shape) reshape_mut | (1 names) rename | (2 names) transpose_mut | (3 names) reorder_mut
+           | (4 k) map_mut, closure panics on call k+1 | (5 k) map_mut_with_index likewise
+           | (6 idx v) get_reference_mut(idx) then write
+           | (7 (vstep…) idx v) the adaptors built over &mut tensor, then get_reference_mut(idx), write
+        vstep = (1 names) TensorReverse | (2 ranges) TensorRange | (3 names) TensorAccess
+              | (4 names) TensorTranspose | (5 masks) TensorMask | (6 names) TensorRename
+      result: (2) if Tensor::from panics, else (0 ((code shape data)…)): after EVERY step the result
+      code (0 done 1 constructor Err 2 panicked 3 index absent 4 not expressible) and the tensor's
+      shape and elements.
+   (10 8 . c11-case)                a Matrix mutation history in the case language of Run/RunC11.v
+                                    (constructors, insert / remove / retain_mut / retain / transpose /
+                                    set / map / partition writes with valid and invalid arguments and
+                                    every slice kind); after EVERY step, panicking ones included, the
+                                    same matrix is read through size / get / both major iterators
+                                    (unchecked accesses, hooks on) and its stored data; the model is
+                                    run_c11 (Model/Matrix.v), the harness drives harness/src/c11.rs
+   (10 9 term)                      TensorStack / TensorChain constructors (term language of
+                                    Run/RunC02.v, tags 0 leaf, 9 stack, 10 chain) over matching and
+                                    MISMATCHING sources in every array / tuple arity and position; when
+                                    the constructor returns, the whole view is walked: every index of
+                                    view_shape through get_reference, get_reference_unchecked and iter()
+      result: (2) constructor panicked | (0 (shape ((v) | () …)))
    All other C10 workloads are the other properties' cases replayed with the hooks on. *)
 From Coq Require Import List ZArith NArith Bool Arith.
-From EasyML Require Import Base.Sx Model.PanicSafety.
+From EasyML Require Import Base.Sx Model.PanicSafety Model.Shape Model.Tensor Model.TSource
+  Model.TensorOps.
+From EasyML Require Model.Views Run.RunC02 Run.RunC11.
 Import ListNotations.
 
 Definition iotaZ (n : nat) : list Z := map Z.of_nat (seq 0 n).
 Definition smstate (p : mstate * bool) : sx :=
   SL [sbool (snd p); snat (m_rows (fst p)); snat (m_cols (fst p)); slist SZ (m_data (fst p))].
 
+(* ---- (10 7 ..): tensor mutation histories ---- *)
+Definition f_idx (idx : list N) (x : Z) : Z :=
+  (x + 1000 + 7 * Z.of_N (fold_right N.add 0%N idx))%Z.
+
+Definition dvstep (s : sx) : option vstep :=
+  match s with
+  | SL [SZ 1%Z; a] => option_map VRev (dnames a)
+  | SL [SZ 2%Z; a] => option_map VRange (dlist (dpair dN dN) a)
+  | SL [SZ 3%Z; a] => option_map VAccess (dnames a)
+  | SL [SZ 4%Z; a] => option_map VTranspose (dnames a)
+  | SL [SZ 5%Z; a] => option_map VMask (dlist (dpair dN dN) a)
+  | SL [SZ 6%Z; a] => option_map VRename (dnames a)
+  | _ => None
+  end.
+
+Definition dtop (s : sx) : option (top Z) :=
+  match s with
+  | SL [SZ 0%Z; a] => option_map TReshapeMut (dshape a)
+  | SL [SZ 1%Z; a] => option_map TRenameMut (dnames a)
+  | SL [SZ 2%Z; a] => option_map TTransposeMut (dnames a)
+  | SL [SZ 3%Z; a] => option_map TReorderMut (dnames a)
+  | SL [SZ 4%Z; k] => option_map (TMapMut f_map) (dnat k)
+  | SL [SZ 5%Z; k] => option_map (TMapMutWithIndex f_idx) (dnat k)
+  | SL [SZ 6%Z; idx; v] =>
+      match dlist dN idx, dZ v with
+      | Some idx, Some v => Some (TSet idx v)
+      | _, _ => None
+      end
+  | SL [SZ 7%Z; vs; idx; v] =>
+      match dlist dvstep vs, dlist dN idx, dZ v with
+      | Some vs, Some idx, Some v => Some (TWriteVia vs idx v)
+      | _, _, _ => None
+      end
+  | _ => None
+  end.
+
+Definition ststate (st : tensor Z * nat) : sx :=
+  SL [snat (snd st); sshape (t_shape (fst st)); slist SZ (t_data (fst st))].
+
+Definition c10_history (sh : shape) (data : list Z) (ops : list (top Z)) : sx :=
+  soutcome (fun t => slist ststate (ttrace t ops)) (tensor_from sh data).
+
+(* ---- (10 9 term): walk of a stack / chain view ---- *)
+Definition c10_walk (v : Views.view) : sx :=
+  soutcome (fun c => SL [sshape (Views.c_shape c); slist (sopt RunC02.svalue) (RunC02.view_values c)])
+           (Views.v_ctor v).
+
 Definition run_c10 (args : list sx) : sx :=
   match args with
+  | SZ 8%Z :: rest => RunC11.run_c11 rest
+  | [SZ 9%Z; t] =>
+      match RunC02.dview 40 t with
+      | Some v => if RunC02.nodup_b (RunC02.v_leaf_ids v) then c10_walk v else bad_case
+      | None => bad_case
+      end
+  | [SZ 7%Z; sh; data; ops] =>
+      match dshape sh, dlist dZ data, dlist dtop ops with
+      | Some sh, Some data, Some ops => c10_history sh data ops
+      | _, _, _ => bad_case
+      end
   | [SZ op; rows; cols; k] =>
       match dnat rows, dnat cols, dnat k with
       | Some rows, Some cols, Some k =>
